@@ -98,8 +98,14 @@ func (f *frame) typeAssert(t *ssa.TypeAssert, st *State) {
 	x := f.val(t.X)
 	var ok *Term
 	var v Val
-	if _, isI := t.AssertedType.Underlying().(*types.Interface); isI {
-		ok = c.implementsTerm(x.L[0], t.AssertedType)
+	if ai, isI := t.AssertedType.Underlying().(*types.Interface); isI {
+		if xi, fromI := t.X.Type().Underlying().(*types.Interface); fromI && types.Implements(xi, ai) {
+			// the static interface type already guarantees the methods (a bound method value of an interface, say):
+			// the assertion succeeds exactly when the value is not nil
+			ok = Not(Eq(x.L[0], IntT(0)))
+		} else {
+			ok = c.implementsTerm(x.L[0], t.AssertedType)
+		}
 		v = Val{T: t.AssertedType, L: x.L}
 	} else {
 		ok = Eq(x.L[0], IntT(int64(c.eng.typeTag(t.AssertedType))))
